@@ -305,6 +305,24 @@ func randOpts(rng *Rand, i int) (webp.EncoderOptions, string) {
 		o.XMP = blob(rng.Pick(1, 9, 40))
 		meta += "X"
 	}
+	// empty but non-nil blobs: documented as "absent" (len == 0): no chunk and no flag
+	switch rng.Intn(8) {
+	case 0:
+		if o.ICC == nil {
+			o.ICC = []byte{}
+			meta += "i"
+		}
+	case 1:
+		if o.EXIF == nil {
+			o.EXIF = []byte{}
+			meta += "e"
+		}
+	case 2:
+		if o.XMP == nil {
+			o.XMP = []byte{}
+			meta += "x"
+		}
+	}
 	return o, meta
 }
 
